@@ -113,6 +113,8 @@ def peeks_of(F, body):
 
 
 def str_consts_compared(F, body):
+    """string constants a function compares something with (match arms on a &str, `==`, `is_empty()` = the empty string);
+    read off the decisions of its paths, so it does not matter how the comparison is spelled"""
     out = set()
     for blk in body["blocks"]:
         t = blk["term"]
@@ -120,8 +122,23 @@ def str_consts_compared(F, body):
             for a in t["args"]:
                 if a["k"] == "const" and "str" in a:
                     out.add(a["str"])
-        for s in blk["stmts"]:
-            pass
+    try:
+        ps = pse.Engine(F, inline=lambda fn, bb: False, max_paths=4000).run(body)
+    except pse.Budget:
+        ps = []
+    for p in ps:
+        for (t, v, s) in p.conds:
+            if t[0] == "bin" and t[1] in ("Eq", "Ne"):
+                for x in (t[2], t[3]):
+                    while x[0] in ("deref", "&"):
+                        x = x[1]
+                    if pse.is_const(x) and isinstance(x[2], tuple) and x[2][0] == "str":
+                        out.add(x[2][1])
+                if t[2][0] == "len" and t[3] == ("const", "usize", 0) and \
+                        any(e["kind"] == "call" and e["fn"].get("name") == "is_empty" and "str" in e["callee"] for e in p.events):
+                    out.add("")
+            if t[0] == "call" and t[1].endswith("str::<impl str>::is_empty"):
+                out.add("")
     return out
 
 
@@ -136,8 +153,14 @@ def rule_grammar(ctx, prods, rule="R2"):
             ctx.lost(rule, "parser/" + name, "Parse impl for %s" % name)
             continue
         bodies[name] = bs[0]
+    # the alternatives are collected from the Parse impls and from every other function of the same source file (a
+    # lookahead may live in a private helper such as a `recognize` function)
+    files = {b["span"].split(":")[0] for b in bodies.values() if b.get("span")}
+    helpers = [b for b in F.find(crate=PARSER_CRATE) if b.get("span") and b["span"].split(":")[0] in files
+               and b["id"] not in {x["id"] for x in bodies.values()}]
     peeks = {}
-    for name, b in bodies.items():
+    for name, b in list(bodies.items()) + [(h["path"].split("::")[-2] + "::" + h["name"] if "::" in h["path"] else h["name"], h)
+                                           for h in helpers]:
         for tok in peeks_of(F, b):
             peeks.setdefault(norm_tok(tok), set()).add(name)
     ctx.extra["parser_peeks"] = {k: sorted(v) for k, v in peeks.items()}
@@ -157,8 +180,8 @@ def rule_grammar(ctx, prods, rule="R2"):
     ctx.floor(rule, "peek alternatives of the timeline parsers", len(peeks), 9)
     if "TimelineConfig" in bodies:
         sfx = set()
-        b = bodies["TimelineConfig"]
-        sfx |= str_consts_compared(F, b)
+        for b in [bodies["TimelineConfig"]] + helpers:
+            sfx |= str_consts_compared(F, b)
         # string patterns are matched through a closure-free chain of str::eq calls on the literal's suffix
         ctx.extra["suffixes"] = sorted(sfx)
         for s in sorted(sfx):
